@@ -33,6 +33,12 @@ exactly at the end of one of its file-occupying members), `RoundTrip.segInside_n
 (`NestedDomain selE selN`: every segment is flat - `layoutDomB false false selE` - or nested - `layoutNestedB selN`)
 plus `NoWrap64` of the saved object.  `loaded_satisfies_Loaded_flat_input`: `NoWrap64` of the saved object replaced by
 the input-side `noWrap64InB o hd` (a Bool function of the input that runs the layout; `Compose.noWrap64_of_input`).
+CLOSED-FORM DOMAIN (Lemmas/LayoutSmall.lean, Props/C04Small.lean, Props/C06Small.lean): the `layoutNW (preSave o) hd`
+clause of `ComposeDomain` / `FlatDomain` / `NestedDomain` follows from plain bounds on the input, `SmallObject o` (ELF64;
+< 2^16 sections and segments; section sizes and alignments, segment alignments < 2^40; a member with an explicit
+address lies in [p_vaddr, p_vaddr + 2^40)) - `smallObject_layoutNW`, `Compose.composeDomain_of_small`.  `noWrap64InB`
+(NoWrap64 of the OUTPUT) is still a Bool check that runs the layout: its closed form is stated, not proved
+(`C04.NoWrap64SmallStatement`, needs bounds on the assigned offsets/addresses and on the mem/file counters).
 Only covered by correspondence/oracle: `Loaded` for the re-saved form of a LOADED (not created) object with
 nested segments, equality (not only >=) of reloaded memory sizes, ELF32 equidistance.
 Correspondence: family load.  Oracle: object 0 loads the image and is
@@ -68,8 +74,10 @@ THEOREMS = ["ElfioVerif.C05.save_writes_fields",
             "ElfioVerif.RoundTrip.segInside_nested",
             "ElfioVerif.RoundTrip.savedSane_mixed",
             "ElfioVerif.Compose.loaded_satisfies_Loaded_nested",
-            "ElfioVerif.Compose.loaded_satisfies_Loaded_flat_input"]
-EXTRA_IMPORTS = ["ElfioVerif.Props.Compose", "ElfioVerif.Props.Compose2"]
+            "ElfioVerif.Compose.loaded_satisfies_Loaded_flat_input",
+            "ElfioVerif.smallObject_layoutNW_preSave",
+            "ElfioVerif.Compose.composeDomain_of_small"]
+EXTRA_IMPORTS = ["ElfioVerif.Props.Compose", "ElfioVerif.Props.Compose2", "ElfioVerif.Props.C06Small"]
 SITES = ["save_", "lsws", "lst_", "lseg", "wsd", "load_s", "sec32_load", "sec64_load"]
 RULE = ("well-formed images whose segment contents are covered by sections (encoder-built linker-like images in 4 "
         "configurations; bundled examples that load) x edit histories {none, add section, append to an unsegmented "
